@@ -182,7 +182,7 @@ def iso_req(q, rng, keys, fail=""):
     m = rng.choice(["Execute", "ExecuteConcurrent", "ExecuteMixModel", "ExecuteInverseMixModel", "emMulti", "em",
                     "ExecuteSelectedRules", "ExecuteSelectedRulesConcurrent", "ExecuteDAGModel", "ExecuteWithStopTagDirect",
                     "ExecuteSelectedRulesMixModel", "emSelected"])
-    r = call_for(m, ["own", "pa", "pb", "pc"], 4)
+    r = call_for(m, ["own", "pa", "pb", "pc", "pd"], 5)
     if m == "em" and not keys:
         r.update(via="emMulti")
     r.update(q=q, keys=keys, fail=fail, noret=rng.random() < 0.2)
@@ -237,7 +237,7 @@ def check_c17(run):
             reqs = []
             for k in range(rng.randint(1, min(40 if not quick else 12, mx * 3))):
                 q += 1
-                reqs.append(iso_req(q, rng, ISO_KEYS, rng.choice(["", "", "", "boom", "cond", "nilstag"])))
+                reqs.append(iso_req(q, rng, ISO_KEYS, rng.choice(["", "", "", "boom", "cond", "nilstag", "concboom"])))
             script.append({"op": "burst", "reqs": reqs})
             script.append({"op": "quiesce"})
         final = []
@@ -254,7 +254,7 @@ def check_c17(run):
     nst = 0
     for (mn, mx) in [(1, 2), (1, 3), (2, 3), (2, 4), (3, 5)]:
         for which in ("resident", "addition", "any"):
-            for fail in ("", "boom", "cond", "nilstag"):
+            for fail in ("", "boom", "cond", "nilstag", "concboom"):
                 for nw in ((1, 2) if not quick else (rng.choice([1, 2]),)):
                     reqs = [iso_req(k + 1, rng, ISO_KEYS, fail) for k in range(mx)] + \
                            [iso_req(mx + k + 1, rng, ISO_KEYS, "") for k in range(nw)]
@@ -304,7 +304,8 @@ def check_c06(run):
             reqs = []
             for k in ks[j:j + rec["par"]]:
                 q += 1
-                reqs.append(iso_req(q, rng, [k] if rng.random() < 0.8 else [k, rng.choice(ISO_KEYS)], ""))
+                reqs.append(iso_req(q, rng, ([k] if rng.random() < 0.8 else [k, rng.choice(ISO_KEYS)]) + (["kd"] if rng.random() < 0.3 else []),
+                                    rng.choice(["", "", "concboom"])))
             for r in reqs:
                 r["keys"] = sorted(set(r["keys"]))
             script.append({"op": "burst", "reqs": reqs})
@@ -320,7 +321,7 @@ def check_c06(run):
             reqs = []
             for k in range(rng.randint(1, 8 if quick else 14)):
                 q += 1
-                reqs.append(iso_req(q, rng, sorted(set(rng.sample(ISO_KEYS, rng.randint(0, 2)))), rng.choice(["", "", "", "boom"])))
+                reqs.append(iso_req(q, rng, sorted(set(rng.sample(ISO_KEYS + ["kd"], rng.randint(0, 3)))), rng.choice(["", "", "", "boom", "concboom"])))
             script.append({"op": "burst", "reqs": reqs})
         script.append({"op": "quiesce"})
         sessions.append({"id": 100000 + i, "kind": "isolation", "min": mn, "max": mx, "model": rng.randint(1, 4), "rules": [],
